@@ -184,7 +184,16 @@ func rulesC11(c *Ctx) {
 	if cpDecided {
 		c.Check(cpBad == "", "C11.UNESCAPE", name+": decoded literals", p.Pos(decoder.Pos()), "every literal of up to three atoms over the grammar's escapes decodes to the single-pass reading (decided by constant propagation through the decoder)", cpBad)
 	}
+	// constant propagation settles the decoder on literals of up to three atoms; that is a verdict for a decoder
+	// that rewrites the text once.  Two rewriting passes in a row (a replacer, then a regular-expression pass
+	// over its output) interact on inputs longer than that (`\\u0041`: the first pass produces the text the
+	// second one decodes again), so for those the samples decide nothing
+	passes := rewritingPasses(decoder)
 	und := func(pos token.Pos, msg string) {
+		if cpDecided && passes > 1 {
+			c.Undecided("C11.UNESCAPE", name, p.Pos(pos), msg+fmt.Sprintf("; the decoder makes %d rewriting passes over the text, and what one pass produces the next can decode again: not settled by sample literals", passes))
+			return
+		}
 		if cpDecided {
 			c.OK("C11.UNESCAPE", name+": shape", p.Pos(pos), "shape not recognised by the structural reading ("+msg+"); decided by constant propagation instead")
 			c.OK("C11.TABLE", name+": escape pairs", p.Pos(pos), "every escape of the grammar decodes to its meaning (by constant propagation)")
@@ -1234,4 +1243,47 @@ func c11StringTokenDecided(c *Ctx, vt *ssa.Function, want map[string]string) (ok
 		}
 	}
 	return ok, true
+}
+
+// rewritingPasses: how many calls in the decoder (and the module functions it calls) rewrite a whole string:
+// Replacer.Replace, strings.Replace/ReplaceAll/Map, regexp ReplaceAll*, strconv.Unquote.
+func rewritingPasses(fn *ssa.Function) int {
+	seen := map[*ssa.Function]bool{}
+	var count func(f *ssa.Function, depth int) int
+	count = func(f *ssa.Function, depth int) int {
+		if f == nil || f.Blocks == nil || seen[f] || depth > 3 {
+			return 0
+		}
+		seen[f] = true
+		n := 0
+		for _, call := range callsIn(f) {
+			cal, _ := calleeOf(call.Common())
+			if cal == nil || cal.Pkg() == nil {
+				continue
+			}
+			switch cal.Pkg().Path() {
+			case "strings":
+				switch cal.Name() {
+				case "Replace", "ReplaceAll", "Map":
+					n++
+				}
+			case "regexp":
+				if strings.HasPrefix(cal.Name(), "ReplaceAll") {
+					n++
+				}
+			case "strconv":
+				if strings.HasPrefix(cal.Name(), "Unquote") {
+					n++
+				}
+			}
+			if sc := call.Common().StaticCallee(); sc != nil && inModule(sc) {
+				n += count(sc, depth+1)
+			}
+		}
+		for _, a := range f.AnonFuncs {
+			n += count(a, depth+1)
+		}
+		return n
+	}
+	return count(fn, 0)
 }
